@@ -527,6 +527,18 @@ def explicit(tier, seed):
                 case["c"]["rsaSchemes"], case["c"]["rsaSigHashes"] = \
                     scheme, [h]
                 yield case
+    # TLS 1.3 only, and nothing TLS 1.3 could sign with (on either side):
+    # refused by validate() or failing with an alert, never a crash
+    for who in "cs":
+        for schemes, rh, eh, more in (
+                (["pkcs1"], L.HASHES, ["sha1"], []),
+                (["pss"], ["sha1", "sha224"], ["sha224"], []),
+                (["pkcs1"], ["sha256"], ["sha1", "sha224"], []),
+                (["pkcs1"], ["sha256"], ["sha1"], ["Ed25519"])):
+            case = base(((3, 4), (3, 4)), "rsa")
+            case[who].update(rsaSchemes=schemes, rsaSigHashes=list(rh),
+                             ecdsaSigHashes=eh, more_sig_schemes=more)
+            yield case
     # extended master secret / encrypt-then-MAC flags x every version the
     # pair can end up in (SSLv3 knows neither)
     for lo, hi in (((3, 0), (3, 0)), ((3, 0), (3, 1)), ((3, 1), (3, 1)),
